@@ -251,13 +251,25 @@ HandleNgSetup(amf, t) ==
        \cup (IF amf.ngSetup THEN {who \o ": second NG Setup"} ELSE {}),
        "NGSetupRequest")
 
+\* algorithm selection (TS 33.501 6.7.1): the AMF has a priority list per algorithm kind (a free choice of the scenario) and selects
+\* the first entry the UE's security capability advertises (IE 2E: octet 1 = 5G-EA0..7, octet 2 = 5G-IA0..7, most significant bit
+\* first); the UE must then protect with exactly the selected algorithms.  An emulator that advertises more than it applies is
+\* caught by a list that prefers what it does not apply.
+CapHas(capab, octet, alg) == Len(capab) >= octet /\ (capab[octet] \div (2 ^ (7 - alg))) % 2 = 1
+RECURSIVE FirstAdvertised(_, _, _, _)
+FirstAdvertised(prio, capab, octet, dflt) ==
+   IF Len(prio) = 0 THEN dflt ELSE IF CapHas(capab, octet, Head(prio)) THEN Head(prio) ELSE FirstAdvertised(Tail(prio), capab, octet, dflt)
+ChSel(ch, capab) ==
+   [ch EXCEPT !.encAlg = IF "encPrio" \in DOMAIN ch THEN FirstAdvertised(ch.encPrio, capab, 1, ch.encAlg) ELSE ch.encAlg,
+              !.intAlg = IF "intPrio" \in DOMAIN ch THEN FirstAdvertised(ch.intPrio, capab, 2, ch.intAlg) ELSE ch.intAlg]
+
 \* Registration Request in an InitialUEMessage: a new UE appears
 HandleRegistrationRequest0(amf, t, m) ==
    LET u == Len(amf.ues) + 1
        who == "UE" \o ToString(u) \o " RegistrationRequest" IN
    IF u > Len(Scn.ues) THEN Res(amf, <<>>, {who \o ": more UEs than the scenario provides choices for"}, "RegistrationRequest")
-   ELSE LET ch == Choice(u)
-            capab == NasOpt(m, 46)
+   ELSE LET capab == NasOpt(m, 46)
+            ch == ChSel(Choice(u), IF capab.has THEN capab.v ELSE <<0, 0>>)
             ran == RanOf(t)
             autn == MilAutn(Cfg.k, OpcOf, ch.rand, ch.sqn, ch.amfField)
             sd == SuciDecode(m.mand[2])
@@ -297,7 +309,7 @@ HandleUeNasO(amf, i, t, ngapMsg, o) ==
         IN
         CASE m.name = "AuthenticationResponse" ->
                LET res == NasOpt(m, 45)
-                   smc == DlProtect([c1.sec EXCEPT !.dl = 0], NasEncode(NasSmc(ch, c.capab)), 3)
+                   smc == DlProtect([c1.sec EXCEPT !.dl = 0], NasEncode(NasSmc([ch EXCEPT !.encAlg = c.sec.encAlg, !.intAlg = c.sec.intAlg], c.capab)), 3)
                    c2 == [c1 EXCEPT !.st = "smcSent", !.sec = smc.sec] IN
                Res(SetCtx(amf, i, c2), << NgapEncode(DlNasTransportOpt(c2, ch, smc.bytes)) >>,
                    base \cup o.complaints \cup stMust({"authSent"}) \cup hdrMust({0})
